@@ -39,7 +39,19 @@ func (st *State) execBlock(stmts []ast.Stmt) []Outcome {
 				next = append(next, o)
 				continue
 			}
-			next = append(next, o.st.exec(s)...)
+			outs := o.st.exec(s)
+			if o.st.fc.inlineDepth == 0 && o.st.fc.curContract != nil && len(o.st.fc.curContract.Anchors) > 0 {
+				if call := topCall(s); call != nil {
+					if ord, ok := o.st.fc.callOrd[call]; ok {
+						for _, oo := range outs {
+							if oo.kind == oNormal {
+								oo.st.runAnchor(fmt.Sprintf("after-call%d", ord), s.End())
+							}
+						}
+					}
+				}
+			}
+			next = append(next, outs...)
 		}
 		cur = next
 		live := 0
@@ -56,6 +68,21 @@ func (st *State) execBlock(stmts []ast.Stmt) []Outcome {
 		}
 	}
 	return cur
+}
+
+// topCall returns the call expression a statement consists of (x := f(), f(), x = f()).
+func topCall(s ast.Stmt) *ast.CallExpr {
+	switch x := s.(type) {
+	case *ast.ExprStmt:
+		c, _ := x.X.(*ast.CallExpr)
+		return c
+	case *ast.AssignStmt:
+		if len(x.Rhs) == 1 {
+			c, _ := x.Rhs[0].(*ast.CallExpr)
+			return c
+		}
+	}
+	return nil
 }
 
 func (st *State) exec(s ast.Stmt) []Outcome {
@@ -477,7 +504,7 @@ func (st *State) branch(cond string, thenF, elseF func(*State) []Outcome) []Outc
 			rest = append(rest, o)
 		}
 	}
-	if len(n1) == 1 && len(n2) == 1 && !st.fc.V.noMerge {
+	if len(n1) == 1 && len(n2) == 1 && !st.fc.V.noMerge && !(st.fc.curContract != nil && st.fc.curContract.NoMerge) {
 		if m := mergeStates(st, base, cond, n1[0].st, n2[0].st); m != nil {
 			return append([]Outcome{{st: m, kind: oNormal}}, rest...)
 		}
